@@ -3,8 +3,12 @@ change what later observations report)."""
 import warnings
 
 
-def handle(S):
+def handle(S, machine=None):
     from qce_circuit.language.declarative_circuit import DeclarativeCircuit
+    if machine is not None:
+        h = machine.handle_of(S)
+        if h is not None:
+            return h
     h = DeclarativeCircuit()
     h._structure = S
     return h
@@ -19,7 +23,7 @@ def observe(machine, st, S, what):
         import matplotlib.pyplot as plt
         from qce_circuit.visualization.visualize_circuit.display_circuit import plot_circuit
         try:
-            fig, ax = plot_circuit(handle(S), compact_visualization=(what == 'plot'))
+            fig, ax = plot_circuit(handle(S, machine), compact_visualization=(what == 'plot'))
             out['ok'] = True
             plt.close(fig)
         finally:
@@ -28,11 +32,11 @@ def observe(machine, st, S, what):
         out.update(draw(machine, S, compact=(what == 'draw')))
     elif what == 'stim':
         from qce_circuit.addon_stim import to_stim
-        out['text_len'] = len(str(to_stim(handle(S))))
+        out['text_len'] = len(str(to_stim(handle(S, machine))))
     elif what == 'duration':
         out['duration'] = S.duration
     elif what == 'ops':
-        out['n'] = len(S.decomposed_operations())
+        out['n'] = len(handle(S, machine).operations)
     else:
         raise ValueError(what)
     return out
@@ -49,7 +53,7 @@ def draw(machine, S, compact):
     from qce_circuit.visualization.visualize_circuit import display_circuit as DC
     from tracer import q
     R = machine.rec
-    h = handle(S)
+    h = handle(S, machine)
     occupied = []
     for c in h.occupied_qubit_channels:
         if c.id not in occupied:
